@@ -22,7 +22,30 @@ def attr_sub(text, rng, name, values):
 
 def mutate(text, rng):
     """one structured mutation of a CellML text; returns (text', description) — text' may equal text when nothing applied"""
-    k = rng.randrange(22)
+    k = rng.randrange(25)
+    if k == 22:
+        # a CDATA section, a processing instruction or (with an internal DTD) an entity reference between two tags
+        gaps = [m.end() for m in re.finditer(r'>', text)][1:-1]
+        if gaps:
+            pos = rng.choice(gaps)
+            what = rng.choice(['<![CDATA[x]]>', '<![CDATA[<ci>x</ci>]]>', '<?pi foo?>', '&foo;', '&foo;'])
+            t = text[:pos] + what + text[pos:]
+            if what == '&foo;':
+                t = re.sub(r'(<\?xml[^>]*\?>)', r'\1<!DOCTYPE model [ <!ENTITY foo "%s"> ]>' % rng.choice(['bar', '<ci>x</ci>', '']), t, count=1)
+            return t, 'odd node ' + what[:9]
+    if k == 23:
+        # a MathML child of <math> that is not an equation
+        extra = rng.choice(['<ci>%s</ci>', '<cn cellml:units="dimensionless">1</cn>', '<apply><plus/><ci>%s</ci><ci>%s</ci></apply>', '<piecewise/>', '<pi/>', '<apply><diff/><bvar><ci>%s</ci></bvar><ci>%s</ci></apply>', '<bvar><ci>%s</ci></bvar>'])
+        vs = re.findall(r'<ci>([^<]+)</ci>', text) or ['x']
+        extra = extra.replace('%s', rng.choice(vs))
+        if '</math>' in text:
+            if rng.random() < 0.5:
+                return text.replace('</math>', extra + '</math>', 1), 'non-equation child of math'
+            return re.sub(r'(<math[^>]*>)', lambda m: m.group(1) + extra, text, count=1), 'non-equation child of math'
+    if k == 24:
+        # an equation without any variable, next to the others
+        if '</math>' in text:
+            return text.replace('</math>', '<apply><eq/><cn cellml:units="dimensionless">2</cn><cn cellml:units="dimensionless">2</cn></apply></math>', 1), 'equation without variables'
     if k == 0:
         a = rng.choice(NUM_ATTRS)
         t = attr_sub(text, rng, a, NUMS)
@@ -194,3 +217,28 @@ for _k, _m in _SHAPES.items():
     FIXED.append((('<?xml version="1.0" encoding="UTF-8"?><model xmlns="http://www.cellml.org/cellml/2.0#" xmlns:cellml="http://www.cellml.org/cellml/2.0#" name="m"><component name="c0">'
                    '<variable name="v0" units="dimensionless"%s/>%s<math xmlns="http://www.w3.org/1998/Math/MathML">%s</math></component></model>'
                    % (' initial_value="1"' if _ode else '', '<variable name="t" units="dimensionless"/>' if _ode else '', _m)).encode(), 'MathML operator with missing operands: ' + _k))
+
+
+# nodes that are neither elements, text nor comments in element content (entity references with an internal DTD, CDATA
+# sections, processing instructions), and MathML children of <math> that are not equations
+_M = '<model xmlns="http://www.cellml.org/cellml/2.0#" xmlns:cellml="http://www.cellml.org/cellml/2.0#" name="m">%s</model>'
+_C = '<component name="c"><variable name="x" units="dimensionless"/><variable name="y" units="dimensionless"/>%s</component>'
+_EQ = '<apply><eq/><ci>y</ci><cn cellml:units="dimensionless">1</cn></apply>'
+for _k, _d in {
+        'entity reference in model content': '<?xml version="1.0"?><!DOCTYPE model [ <!ENTITY foo "bar"> ]>' + _M % ('&foo;' + _C % ''),
+        'entity reference in component content': '<?xml version="1.0"?><!DOCTYPE model [ <!ENTITY foo "bar"> ]>' + _M % (_C % '&foo;'),
+        'entity reference inside math': '<?xml version="1.0"?><!DOCTYPE model [ <!ENTITY foo "<ci>x</ci>"> ]>' + _M % (_C % ('<math xmlns="http://www.w3.org/1998/Math/MathML"><apply><eq/><ci>y</ci>&foo;</apply></math>')),
+        'entity reference in an attribute': '<?xml version="1.0"?><!DOCTYPE model [ <!ENTITY foo "second"> ]>' + _M % '<units name="u"><unit units="&foo;"/></units>',
+        'CDATA section in model content': '<?xml version="1.0"?>' + _M % ('<![CDATA[x]]>' + _C % ''),
+        'CDATA section in component and units': '<?xml version="1.0"?>' + _M % ('<units name="u"><![CDATA[<unit/>]]><unit units="second"/></units>' + _C % '<![CDATA[ ]]>'),
+        'CDATA section inside math': '<?xml version="1.0"?>' + _M % (_C % ('<math xmlns="http://www.w3.org/1998/Math/MathML"><![CDATA[x]]>' + _EQ + '</math>')),
+        'CDATA section inside ci and cn': '<?xml version="1.0"?>' + _M % (_C % ('<math xmlns="http://www.w3.org/1998/Math/MathML"><apply><eq/><ci><![CDATA[y]]></ci><cn cellml:units="dimensionless"><![CDATA[1]]></cn></apply></math>')),
+        'processing instructions everywhere': '<?xml version="1.0"?><?a b?>' + _M % ('<?pi foo?>' + _C % ('<?pi?><math xmlns="http://www.w3.org/1998/Math/MathML"><?pi x?>' + _EQ + '</math>')) + '<?z?>',
+        'bare ci as a child of math': '<?xml version="1.0"?>' + _M % (_C % ('<math xmlns="http://www.w3.org/1998/Math/MathML">' + _EQ + '<ci>x</ci></math>')),
+        'bare cn as a child of math': '<?xml version="1.0"?>' + _M % (_C % ('<math xmlns="http://www.w3.org/1998/Math/MathML"><cn cellml:units="dimensionless">3</cn>' + _EQ + '</math>')),
+        'apply without eq as a child of math': '<?xml version="1.0"?>' + _M % (_C % ('<math xmlns="http://www.w3.org/1998/Math/MathML"><apply><plus/><ci>x</ci><ci>y</ci></apply>' + _EQ + '</math>')),
+        'piecewise and constants as children of math': '<?xml version="1.0"?>' + _M % (_C % ('<math xmlns="http://www.w3.org/1998/Math/MathML"><piecewise><otherwise><ci>x</ci></otherwise></piecewise><pi/><true/>' + _EQ + '</math>')),
+        'diff as a child of math': '<?xml version="1.0"?>' + _M % (_C % ('<math xmlns="http://www.w3.org/1998/Math/MathML"><apply><diff/><bvar><ci>x</ci></bvar><ci>y</ci></apply></math>')),
+        'nested math': '<?xml version="1.0"?>' + _M % (_C % ('<math xmlns="http://www.w3.org/1998/Math/MathML"><math>' + _EQ + '</math></math>')),
+        }.items():
+    FIXED.append((_d.encode(), 'odd nodes: ' + _k))
